@@ -176,7 +176,10 @@ def tlc(module_dir, module, cfg, workers=8, simulate=None, depth=None, coverage=
         if m:
             r.generated = int(m.group(1))
             r.distinct = r.distinct or r.generated
-    if r.rc not in (0, 10, 11, 12, 13) :
+    m = re.search(r'The invariant of (\w+) is equal to FALSE', r.out)
+    if m:
+        r.violated = m.group(1)
+    if r.rc not in (0, 10, 11, 12, 13, 151):
         # parse / semantic / other errors
         raise ToolError("TLC failed rc=%s on %s/%s:\n%s" % (r.rc, module, cfg, r.out[-4000:]))
     return r
